@@ -87,14 +87,23 @@ def iv(x):
     return parts(x)[1]
 
 
-def mk(b, i, lo, hi):
+def mk(b, i, lo, hi, tz=0):
     if lo == hi:
         return lo
     if lo > hi:
         raise Unsupported(f"empty interval [{lo},{hi}]")
     if not (-S.LIM <= lo and hi < S.LIM):
         raise Unsupported(f"possible overflow of the {S.W}-bit encoding: [{lo},{hi}]")
-    return SymInt(b, i, lo, hi)
+    return SymInt(b, i, lo, hi, tz)
+
+
+def tz_of(x):
+    """number of low bits known to be zero"""
+    if isinstance(x, SymInt):
+        return x.tz
+    if isinstance(x, int) and not isinstance(x, bool):
+        return 128 if x == 0 else (x & -x).bit_length() - 1
+    return 0
 
 
 def bv_divmod(xb, c):
@@ -272,10 +281,10 @@ def _mulrng(a, b):
 
 
 class SymInt:
-    __slots__ = ("bv", "iv", "lo", "hi")
+    __slots__ = ("bv", "iv", "lo", "hi", "tz")
 
-    def __init__(self, b, i, lo, hi):
-        self.bv, self.iv, self.lo, self.hi = b, i, lo, hi
+    def __init__(self, b, i, lo, hi, tz=0):
+        self.bv, self.iv, self.lo, self.hi, self.tz = b, i, lo, hi, tz
 
     # -- arithmetic
     def __add__(self, o):
@@ -283,7 +292,7 @@ class SymInt:
             b, i, l, h = parts(o)
         except Unsupported:
             return NotImplemented
-        return mk(self.bv + b, self.iv + i, self.lo + l, self.hi + h)
+        return mk(self.bv + b, self.iv + i, self.lo + l, self.hi + h, min(self.tz, tz_of(o)))
 
     __radd__ = __add__
 
@@ -313,7 +322,7 @@ class SymInt:
         if l == 0:
             return 0
         lo, hi = _mulrng((self.lo, self.hi), (l, h))
-        return mk(self.bv * b, self.iv * i, lo, hi)
+        return mk(self.bv * b, self.iv * i, lo, hi, self.tz + (tz_of(o) if isinstance(o, int) and o != 0 else 0))
 
     def __rmul__(self, o):
         if isinstance(o, (bytes, bytearray)):
@@ -459,7 +468,7 @@ class SymInt:
             ivt = int_and_const(self.iv, o)
         else:
             ivt = eng().fresh_int(lo, hi)  # over-approximation in the steering encoding only
-        return mk(self.bv & b, ivt, lo, hi)
+        return mk(self.bv & b, ivt, lo, hi, max(self.tz, tz_of(o) if isinstance(o, int) and o > 0 else 0))
 
     __rand__ = __and__
 
@@ -476,9 +485,11 @@ class SymInt:
         lo, hi = max(self.lo, l), (1 << bits) - 1
         if isinstance(o, int):
             ivt = self.iv + o - int_and_const(self.iv, o)
+        elif (self.hi < (1 << min(tz_of(o), 200))) or (h < (1 << min(self.tz, 200))):
+            ivt = self.iv + i  # the operands have no bit in common: x | y == x + y
         else:
             ivt = eng().fresh_int(lo, hi)
-        return mk(self.bv | b, ivt, lo, hi)
+        return mk(self.bv | b, ivt, lo, hi, min(self.tz, tz_of(o)))
 
     __ror__ = __or__
 
